@@ -1,5 +1,6 @@
 """C09 — mh, mala and hmc are reversible with respect to the posterior."""
 import math
+import zlib
 
 import numpy as np
 
@@ -363,7 +364,9 @@ def check_kernel(G, ctx, mname, spec, sel_e, kernel, key_int, rng, eps=0.3, nste
             for uu, want_acc in runs:
                 su.fixed = uu
                 sn.rng = __import__("random").Random(key_int * 7 + 1)
-                o2 = k(tr) if mname not in ("mixture-indicator",) else G.seed(k)(key, tr)
+                # seed() caches the staged function per function object: the scripted threshold is a Python value baked in at trace time,
+                # so every seeded re-run needs a FRESH function object (a stale cached threshold was a false alarm of the thorough tier)
+                o2 = k(tr) if mname not in ("mixture-indicator",) else G.seed(lambda t, k=k: k(t))(key, tr)
                 oc2 = o2.get_choices()
                 got2 = {p: np.asarray(tree_get(oc2, p)) for p in spaths}
                 moved2 = any(not np.array_equal(got2[p], np.asarray(x0[p])) for p in spaths)
@@ -526,7 +529,7 @@ def shard(ctx, jobs):
     G = impl.load()
     ms = models(G)
     for (mname, sel_e, kernel, key_int, eps, nsteps) in jobs:
-        rng = random.Random(key_int * 31 + hash(kernel) % 97)
+        rng = random.Random(key_int * 31 + zlib.crc32(kernel.encode()) % 97)      # stable across processes (str hashes are salted)
         check_kernel(G, ctx, mname, ms[mname], tuple(sel_e), kernel, key_int, rng, eps, nsteps)
 
 
